@@ -296,6 +296,35 @@ def r14_12(run, model):
     run.floor("whole-program linking functions examined", len(whole), 1)
 
 
+def r14_14(run, model):
+    run.rule("R14.14", "both pipelines make the same entry-point check: link_cores rejects a Main package without `main`, so the whole-program "
+                       "function that links the package cores rejects it too (the back end emits `func main() { main0() }` unconditionally)")
+    PIPE = "crates/compiler/src/pipeline/pipeline.rs"
+
+    def has_check(f, rel):
+        for iff in S.find(f.body, "If"):
+            lits = [x for x in S.walk(iff["cond"]) if x["k"] == "Lit" and x.get("value") == "main"]
+            if not lits:
+                continue
+            if any(r.get("expr") is not None and S.callee_name(r["expr"]) == "Err" for r in S.find(iff["then"], "Return")):
+                return iff
+        return None
+    lc = model.fn("link_cores", SEP)
+    ref = has_check(lc, SEP)
+    whole = [f for f in model.fns(PIPE) if f.body is not None and any(True for _ in S.calls(f.body, "link_packages")) and any(True for _ in S.calls(f.body, "build_package"))]
+    if not whole:
+        raise AnalysisIncomplete("whole-program function calling build_package and link_packages not found")
+    if ref is None:
+        run.ob("R14.14", "link_cores|rejects a Main package without main", False, site(SEP, lc.node["sp"]), "no `== \"main\"` test that returns Err found in link_cores",
+               witness="fn mian() {..}: the Go output calls an undeclared main0")
+        return
+    for f in whole:
+        got = has_check(f, PIPE)
+        run.ob("R14.14", f"{f.name}|rejects a Main package without main like link does", got is not None, site(PIPE, (got or f.node)["sp"]),
+               "tests for a function named main and returns Err" if got else "link_cores returns Err(\"Main package missing main function\"); this function has no such test",
+               witness="package Main with fn mian() instead of fn main(): `run` reports nothing and emits `func main() { main0() }` with main0 undeclared; build + link fail with `Main package missing main function`")
+
+
 def r14_10(run, model):
     run.rule("R14.10", "a program of ordinary size survives the trip through a .core file: Core nests one level per `let`, so the function that "
                        "deserialises a CoreUnit disables serde_json's recursion limit (default 128: about 60 sequential lets)")
@@ -373,6 +402,7 @@ def run(run, model):
     run.try_rule(r14_1, model)
     run.try_rule(canonical_link_order, model)
     run.try_rule(r14_12, model)
+    run.try_rule(r14_14, model)
     run.try_rule(r14_2, model)
     from rules import c16
     run.rule("R14.7", "both pipelines type-check a package against the environments of its own imports only (shared with C16 R16.5): a "
